@@ -78,3 +78,9 @@ Theorem C14_validated_inverse : forall A X : list (list R),
   minv ROps A = Some X -> matmul ROps (length A) A X = identity ROps (length A).
 Proof. exact minv_sound. Qed.
 Print Assumptions C14_validated_inverse.
+
+(* change of units (data in Tesla or Volt): the full covariance of c * X is c^2 times that of X, for every c *)
+Theorem C14_covariance_change_of_units : forall p X dof c j k, (j < p)%nat -> (k < p)%nat ->
+  entry ROps (cov_full ROps p (map (vscale ROps c) X) dof) j k = c * c * entry ROps (cov_full ROps p X dof) j k.
+Proof. exact cov_full_change_of_units. Qed.
+Print Assumptions C14_covariance_change_of_units.
